@@ -212,6 +212,11 @@ def check(ctx):
     ctx.check("sublist_size = len(idx_list) // argc" in src and "argc = len(window.factors)" in src and "if window.width == 1:\n    return indices" in src, R, sw, "per-factor windows",
               "the flat argument tuple is cut into one window per factor; width-1 windows are not shifted", "the per-factor split of shift_window changed")
 
+    # a derived level rebuilt for weight desugaring must keep its window (width, stride, start) and weight: the field-carry
+    # rule of C23, restricted to the level / factor classes
+    from . import C23
+    C23.rule_carry(ctx, R="C15.carry", only=lambda f: f.module.short == "primitive")
+
     mod = sys.modules[__name__]
     control(ctx, mod, "coverage entry becomes a warning",
             lambda s: variants.in_function(s, "sweetpea/_internal/derivation_processor.py", "DerivationProcessor.generate_derivations",
@@ -223,6 +228,7 @@ def check(ctx):
     control(ctx, mod, "UniGen ignores the error gate",
             lambda s: variants.in_function(s, "sweetpea/_internal/sampling_strategy/unigen.py", "UniGen.sample",
                                            "        if block.show_errors():\n            return SamplingResult([], {})\n", "        block.show_errors()\n"), "C15.gate")
+    ctx.min_instances("C15.carry", 2)
     ctx.min_instances("C15.overlap", 4)
     ctx.min_instances("C15.gap", 5)
     ctx.min_instances("C15.gate", 5)
